@@ -14,7 +14,7 @@ for id in "$@"; do
     git -C "$W" checkout -q -- .
     if ! git -C "$W" apply "$P" 2>/dev/null; then echo "== $id/$k: does not apply to HEAD (skipped)"; continue; fi
     out=""
-    for p in C01 C02 C03 C04 C05 C06 C07 C08 C09 C10 C13 C15 C16 C17 C18 C19 C20; do
+    for p in C01 C02 C03 C04 C05 C06 C07 C08 C09 C10 C11 C12 C13 C14 C15 C16 C17 C18 C19 C20; do
       r=$(VERIF_REPO=$W VERIF_EVIDENCE_DIR="$W.ev" /verif/check $p --tier quick 2>&1 | grep -E "^  R-|checker error|Traceback" | cut -c1-300)
       [ -n "$r" ] && out="$out
 [$p] $r"
